@@ -2,7 +2,7 @@
    Only the property theorems, each closed by [exact] and followed by Print Assumptions. *)
 From Coq Require Import List ZArith.
 From MirV Require Import C08.CLayout C08.SysVLayout C08.CClassify C08.SysVClassify C08.StepProofs
-  C08.LayoutProofs C08.ClassifyProofs C08.DisjointProofs C08.TotalProofs C08.SpanClassify.
+  C08.LayoutProofs C08.ClassifyProofs C08.DisjointProofs C08.TotalProofs C08.SpanClassify C08.SpanFixed.
 Import ListNotations.
 Local Open Scope Z_scope.
 
@@ -209,3 +209,12 @@ Proof.
   repeat (split; [assumption|]). rewrite H5, H6. discriminate.
 Qed.
 Print Assumptions classify_eq_gcc_refuted.
+
+(* c2mir WITH fixes/C08-9.patch ([classify_arg_g]: a bit-field marks every qword from its first to
+   its last bit) classifies every well-formed struct/union as gcc does, without any guard on
+   bit-fields: the patch is complete (padding-only eightbytes stay the known finding). *)
+Theorem classify_fixed_eq_gcc_total : forall t,
+  wf_ty t = true -> is_agg t = true ->
+  option_map (map tr) (classify_arg_g t) = option_map (map pad_int) (sysv_classify_g t).
+Proof. exact classify_g_eq_gcc_total_lemma. Qed.
+Print Assumptions classify_fixed_eq_gcc_total.
